@@ -14,39 +14,58 @@
      {"ev":"end"}
      {"ev":"server_exit",..}            the server process died: no action matches
 
+   CONVERT cases (hdr.kind = "convert"): the `adlt convert` binary (its own wiring of the stages, convert.rs 595-657) on a
+   generated log, and as reference the same parsed log through the library stages with channels that never fill:
+     hdr: "shape":"plain"|"sort"|"filter"|"devfull","sorted":bool,"ref_count":n,"ref_seq":h,"ref_bag":h
+          (seq = order-sensitive hash, bag = multiset hash of the messages, over the fields a DLT file keeps)
+     {"ev":"convert_exit","code":c,"timed_out":bool,"waited_ms":w}      the process ended (or was killed after 120 s)
+     {"ev":"convert_out","count":n,"seq":h,"bag":h}                      the written file, re-read (not for devfull)
+   Contract: the process ends by itself - also when its consumer, the writer thread, fails at once (-o /dev/full); otherwise
+   exit code 0 and the written messages are the reference's: same count and multiset, same sequence unless sorted.
+
    Contract: after the consumer disappeared the connection thread and every pipeline stage thread are gone
    (threads_after = threads_before), and the server still serves.                                                   *)
 EXTENDS Integers, Sequences, FiniteSets, TLC, Json, IOUtils
 
 Rec == ndJsonDeserialize(IOEnv.TRACE)
 
-VARIABLES l, case, phase, viol
-vars == <<l, case, phase, viol>>
+VARIABLES l, case, phase, hl, viol
+vars == <<l, case, phase, hl, viol>>
 
-Init == l = 1 /\ case = -1 /\ phase = "idle" /\ viol = {}
+Init == l = 1 /\ case = -1 /\ phase = "idle" /\ hl = 0 /\ viol = {}
 Ev(e) == l <= Len(Rec) /\ Rec[l].ev = e /\ l' = l + 1
 Cur == Rec[l]
 Active == {"running", "counted", "served"}
 
-Reset == /\ Ev("reset") /\ case' = Cur.case /\ phase' = "running"
+Reset == /\ Ev("reset") /\ case' = Cur.case /\ phase' = "running" /\ hl' = l
          /\ viol' = IF phase \in Active THEN viol \cup {case} ELSE viol
-Census == /\ Ev("census") /\ phase = "running"
+Census == /\ Ev("census") /\ phase = "running" /\ Rec[hl].hdr.kind = "remote_drop"
           /\ Cur.threads_before >= 1
           /\ Cur.threads_after = Cur.threads_before          \* every thread that served the vanished client has ended
-          /\ phase' = "counted" /\ UNCHANGED <<case, viol>>
-Reopen == /\ Ev("reopen") /\ phase = "counted" /\ Cur.ok
-          /\ phase' = "served" /\ UNCHANGED <<case, viol>>
-End == /\ Ev("end") /\ phase = "served" /\ phase' = "ended" /\ UNCHANGED <<case, viol>>
+          /\ phase' = "counted" /\ UNCHANGED <<case, viol, hl>>
+Reopen == /\ Ev("reopen") /\ phase = "counted" /\ Rec[hl].hdr.kind = "remote_drop" /\ Cur.ok
+          /\ phase' = "served" /\ UNCHANGED <<case, viol, hl>>
+End == /\ Ev("end") /\ phase = "served" /\ phase' = "ended" /\ UNCHANGED <<case, viol, hl>>
 
-Matches == ENABLED Census \/ ENABLED Reopen \/ ENABLED End
+\* ---- adlt convert as a whole
+ConvertExit == /\ Ev("convert_exit") /\ phase = "running" /\ Rec[hl].hdr.kind = "convert"
+               /\ ~Cur.timed_out                                                \* every stage (and the process) terminates
+               /\ (Rec[hl].hdr.shape # "devfull" => Cur.code = 0)
+               /\ phase' = (IF Rec[hl].hdr.shape = "devfull" THEN "served" ELSE "counted") /\ UNCHANGED <<case, viol, hl>>
+ConvertOut == /\ Ev("convert_out") /\ phase = "counted" /\ Rec[hl].hdr.kind = "convert"
+              /\ Cur.count = Rec[hl].hdr.ref_count /\ Cur.bag = Rec[hl].hdr.ref_bag      \* nothing lost, duplicated, altered
+              /\ (~Rec[hl].hdr.sorted => Cur.seq = Rec[hl].hdr.ref_seq)                 \* nothing reordered
+              /\ phase' = "served" /\ UNCHANGED <<case, viol, hl>>
+
+Matches == ENABLED Census \/ ENABLED Reopen \/ ENABLED End \/ ENABLED ConvertExit \/ ENABLED ConvertOut
 Reject == /\ l <= Len(Rec) /\ Cur.ev # "reset" /\ phase \in Active /\ ~Matches
           /\ PrintT(<<"CASE_REJECTED", case, l, ToJson(Cur)>>)
-          /\ l' = l + 1 /\ phase' = "rejected" /\ viol' = viol \cup {case} /\ UNCHANGED case
+          /\ l' = l + 1 /\ phase' = "rejected" /\ viol' = viol \cup {case} /\ UNCHANGED <<case, hl>>
 SkipRest == /\ l <= Len(Rec) /\ Cur.ev # "reset" /\ phase \in {"rejected", "ended", "idle"}
             /\ l' = l + 1
             /\ IF phase = "ended" THEN viol' = viol \cup {case} /\ phase' = "rejected" ELSE UNCHANGED <<viol, phase>>
-            /\ UNCHANGED case
-Next == Reset \/ Census \/ Reopen \/ End \/ Reject \/ SkipRest
+            /\ UNCHANGED <<case, hl>>
+Next == Reset \/ Census \/ Reopen \/ ConvertExit \/ ConvertOut \/ End \/ Reject \/ SkipRest
 Spec == Init /\ [][Next]_vars
 
 AtEnd == l = Len(Rec) + 1
